@@ -20,6 +20,43 @@ def showOut {α : Type} (f : α → String) : Out α → String
 /-- the scratch `tree` real callers pass: `MAX_HUFFMAN_TREE_SIZE = 2 * 704 + 1` nodes -/
 def scratchTree (n : Nat) : List Node := List.replicate (2 * n + 1) default
 
+/-- fold an outcome into a digest: a panic is the word 0xdead -/
+def foldOut {α : Type} (h : UInt64) (o : Out α) (f : UInt64 → α → UInt64) : UInt64 :=
+  match o with
+  | .ok a => f h a
+  | .panic => fnvStep h 0xdead
+  | .fuel => fnvStep h 0xf00d
+
+def foldList (h : UInt64) (l : List Nat) : UInt64 := l.foldl fnvStep (fnvStep h l.length)
+
+def foldBits (h : UInt64) (w : Writer) : UInt64 := foldList (fnvStep h w.length) (toBytes w)
+
+/-- count vector number `idx` over `nsym` symbols, counts `0..12` (base-13 digits, symbol 0 first) -/
+def exhVector (nsym idx : Nat) : List Nat := (List.range nsym).map fun i => idx / 13 ^ i % 13
+
+/-- digest of everything the builders do on one small count vector -/
+def exhStep (nsym : Nat) (withBuild : Bool) (h : UInt64) (idx : Nat) : UInt64 :=
+  let v := exhVector nsym idx
+  let nz := (v.filter (· ≠ 0)).length
+  let h := fnvStep h idx
+  let zeros := List.replicate nsym 0
+  let h := if nz ≥ 1 then
+      let t15 := createHuffmanTree v nsym 15 (scratchTree nsym) zeros
+      let h := foldOut h t15 foldList
+      let h := foldOut h (createHuffmanTree v nsym 5 (scratchTree nsym) zeros) foldList
+      match t15 with
+      | .ok d =>
+        let h := foldOut h (convertBitDepthsToSymbols d nsym zeros) foldList
+        if nz ≥ 2 then foldOut h (storeHuffmanTree d nsym (scratchTree 704) []) foldBits else h
+      | _ => h
+    else h
+  let h := foldOut h (buildAndStoreHuffmanTreeFast v v.sum 3 zeros zeros [])
+    fun h r => foldBits (foldList (foldList h r.1) r.2.1) r.2.2
+  if withBuild then
+    foldOut h (buildAndStoreHuffmanTree v nsym nsym (scratchTree 704) zeros zeros [])
+      fun h r => foldBits (foldList (foldList h r.1) r.2.1) r.2.2
+  else h
+
 /-- requests of the `huff` engine (the leading token is already stripped) -/
 def handle (args : List String) : String :=
   match args with
@@ -53,6 +90,8 @@ def handle (args : List String) : String :=
   | ["optrle", cs] =>
     let c := parseList cs
     showOut showList (optimizeHuffmanCountsForRle c.length c (List.replicate c.length 0))
+  | ["exh", nsym, lo, hi, withBuild] =>   -- digest over count vectors lo..hi-1 (see `exhStep`)
+    toString (foldRange (natArg lo) (natArg hi) fnvInit (exhStep (natArg nsym) (natArg withBuild != 0)))
   | _ => "bad-op"
 
 end BV.Drive.Huffman
